@@ -410,6 +410,466 @@ def floodfill_key(modules):
     return 9
 
 
+# ------------------------------------------------------------------ post-processing of cached values: alias / in-place IR
+# Every function of a non-test module that reads a cache entry (an attribute / global whose name ends in `_cache` / `_CACHE`, the `memo` dict
+# of decorators.memoize, the result of a memoised or otherwise cache-returning accessor such as `to_mask(..)`, `get_mask(..)`,
+# `update_histogram()`, `.profile`) is translated, statement by statement, into the small IR of Gen_memo.v:
+#     SAssign x c ys   x = e     where e MAY share memory with a cache entry if c, or with whatever the local names ys are bound to
+#                                (`np.asarray(y)`, `y[..]`, `y.reshape(..)`, `y if .. else z`, an unknown call `f(y)`, unpacking y ...);
+#                                `y.copy()`, `y.astype(t)` (without copy=False), `np.array(y)` (without copy=False), arithmetic, reductions
+#                                and the other whitelisted array-producing calls give a NEW array: c = false, ys = []
+#     SInplace x       x /= e, x *= e, x += e ..., x[..] = e, x.attr = e, del x[..], x.sort() / .fill(..) / .put(..) / .resize(..) / .partition(..) /
+#                      list and dict mutators, any call with out=x (or np.copyto / np.put / np.place / np.putmask on x)
+#     SInplaceCache    the same applied to a cache expression itself (`self._histogram_cache[1][1] /= 2`); a plain assignment to the cache
+#                      attribute or to one of its entries is a STORE (that is how an entry gets there) and is not recorded
+#     SIf a b, SLoop a, SReturn
+# Whether a program can write into a cached value is then decided in Coq by the checker `safe_prog` of C05 (proved sound against the
+# concrete semantics of the IR), on the table regenerated here.  Fail closed: an expression the translator does not know may alias every
+# local name it mentions.  Limits (TRUSTED): intra-procedural (parameters are taken not to be cache entries; a value stored into an
+# attribute other than a cache and modified through it later is not followed).
+import re as _re
+
+CACHE_NAME = _re.compile(r'(_cache|_CACHE)$')
+NOT_ARRAY_CACHES = {'limits_cache', '_layers_data_cache', 'stat_cache', '_background_cache', '_pixel2world_cache', '_world2pixel_cache'}
+FRESH_METHODS = {'copy', 'astype', 'cumsum', 'cumprod', 'sum', 'max', 'min', 'mean', 'std', 'var', 'any', 'all', 'tolist', 'nonzero', 'argsort',
+                 'argmax', 'argmin', 'round', 'dot', 'repeat', 'take', 'compress', 'flatten', 'tobytes', 'prod', 'ptp', 'clip', 'conj', 'trace',
+                 'searchsorted', 'item', 'keys', 'index', 'count', 'format', 'join', 'split', 'startswith', 'endswith', 'lower', 'upper'}
+VIEW_METHODS = {'view', 'reshape', 'ravel', 'squeeze', 'transpose', 'swapaxes', 'get', 'values', 'items', 'diagonal', 'byteswap', 'newbyteorder',
+                'setdefault', '__getitem__'}
+MUTATING_METHODS = {'sort', 'fill', 'put', 'resize', 'partition', 'itemset', 'setfield', 'byteswap', 'append', 'extend', 'insert', 'remove', 'pop',
+                    'clear', 'update', 'popitem', 'setdefault', 'reverse', 'add', 'discard', '__setitem__', '__delitem__', '__iadd__', '__imul__',
+                    '__itruediv__', '__isub__', '__ior__', '__iand__', '__ixor__'}
+STORE_METHODS = {'update', 'pop', 'clear', 'setdefault', 'popitem'}       # directly on the cache container: storing / dropping entries
+FRESH_ATTRS = {'shape', 'size', 'ndim', 'dtype', 'nbytes', 'itemsize', 'strides', 'flags'}
+NP_FRESH = {'array', 'copy', 'zeros', 'ones', 'empty', 'full', 'zeros_like', 'ones_like', 'empty_like', 'full_like', 'hstack', 'vstack', 'dstack',
+            'concatenate', 'stack', 'cumsum', 'cumprod', 'sum', 'nansum', 'where', 'unique', 'histogram', 'histogram2d', 'histogramdd', 'linspace',
+            'logspace', 'log10', 'log', 'log2', 'exp', 'sqrt', 'abs', 'absolute', 'nanmin', 'nanmax', 'min', 'max', 'amin', 'amax', 'isnan', 'isfinite',
+            'isinf', 'all', 'any', 'sort', 'argsort', 'percentile', 'nanpercentile', 'median', 'nanmedian', 'mean', 'nanmean', 'std', 'nanstd',
+            'searchsorted', 'digitize', 'arange', 'prod', 'diff', 'floor', 'ceil', 'round', 'around', 'clip', 'logical_and', 'logical_or',
+            'logical_not', 'logical_xor', 'add', 'subtract', 'multiply', 'divide', 'true_divide', 'power', 'minimum', 'maximum', 'hypot', 'isscalar',
+            'shape', 'ndim', 'size', 'array_equal', 'allclose', 'isclose', 'dot', 'meshgrid', 'indices', 'tile', 'repeat', 'bincount', 'count_nonzero',
+            'in1d', 'isin', 'datetime64', 'float64', 'float32', 'int64', 'int32', 'bool_', 'issubdtype', 'result_type', 'nonzero', 'flatnonzero',
+            'take', 'interp', 'sign', 'mod', 'sin', 'cos', 'tan', 'arctan2', 'radians', 'degrees', 'nan_to_num'}
+NP_VIEW = {'asarray', 'asanyarray', 'ascontiguousarray', 'asfortranarray', 'atleast_1d', 'atleast_2d', 'atleast_3d', 'broadcast_to', 'broadcast_arrays',
+           'reshape', 'ravel', 'squeeze', 'transpose', 'expand_dims', 'require', 'real', 'imag', 'swapaxes', 'moveaxis', 'rollaxis'}
+NP_INPLACE_FIRST = {'copyto', 'put', 'place', 'putmask', 'put_along_axis', 'fill_diagonal'}
+BUILTIN_FRESH = {'len', 'int', 'float', 'bool', 'str', 'repr', 'id', 'hash', 'isinstance', 'issubclass', 'type', 'range', 'abs', 'sum', 'min', 'max',
+                 'any', 'all', 'sorted', 'round', 'hasattr', 'callable', 'frozenset', 'print', 'getattr'}
+SEED_ACCESSORS = {'to_mask', 'get_mask'}
+
+
+def is_np(node):
+    return isinstance(node, ast.Name) and node.id in ('np', 'numpy')
+
+
+def kw_false(call, name):
+    return any(k.arg == name and isinstance(k.value, ast.Constant) and k.value is not None and k.value.value is False for k in call.keywords)
+
+
+class IRBuilder:
+    """one function body -> IR (python tuples, each statement carries its line)"""
+
+    def __init__(self, fn, cache_names, accessors, props, param_mutators=()):
+        self.fn, self.cache_names, self.accessors, self.props = fn, cache_names, accessors, props
+        self.param_mutators = param_mutators
+        self.vars = {}
+        self.nsources = 0
+
+    def var(self, name):
+        if name not in self.vars:
+            self.vars[name] = len(self.vars)
+        return self.vars[name]
+
+    def is_cache_expr(self, node):
+        if isinstance(node, ast.Attribute) and (CACHE_NAME.search(node.attr) or node.attr in self.cache_names) and node.attr not in NOT_ARRAY_CACHES:
+            return True
+        if isinstance(node, ast.Name) and (CACHE_NAME.search(node.id) or node.id in self.cache_names) and node.id not in NOT_ARRAY_CACHES:
+            return True
+        return False
+
+    def root(self, node):
+        """('cache', None) | ('var', name) | ('other', None) : what a chain of subscripts / attributes hangs on"""
+        depth = 0
+        while True:
+            if self.is_cache_expr(node):
+                return ('cache', depth)
+            if isinstance(node, ast.Attribute) and node.attr in self.props:
+                return ('cache', depth)
+            if isinstance(node, ast.Call) and isinstance(node.func, ast.Attribute) and node.func.attr in self.accessors:
+                return ('cache', depth)
+            if isinstance(node, (ast.Subscript, ast.Attribute, ast.Starred)):
+                node = node.value
+                depth += 1
+                continue
+            if isinstance(node, ast.Name):
+                return ('var', node.id)
+            return ('other', None)
+
+    def names_in(self, node):
+        out = []
+        for n in ast.walk(node):
+            if isinstance(n, ast.Name) and n.id in self.vars and n.id not in out:
+                out.append(n.id)
+        return out
+
+    def mentions_cache(self, node):
+        return any(self.is_cache_expr(n) or (isinstance(n, ast.Attribute) and n.attr in self.props) or
+                   (isinstance(n, ast.Call) and isinstance(n.func, ast.Attribute) and n.func.attr in self.accessors) for n in ast.walk(node))
+
+    def unknown(self, node):
+        return (self.mentions_cache(node), self.names_in(node))
+
+    def rhs(self, node):
+        """(may alias a cache entry, [local names it may alias])"""
+        if isinstance(node, (ast.Constant, ast.JoinedStr, ast.Compare, ast.BinOp, ast.UnaryOp, ast.Lambda)):
+            if isinstance(node, (ast.BinOp, ast.UnaryOp, ast.Compare)) or isinstance(node, (ast.Constant, ast.JoinedStr, ast.Lambda)):
+                return (False, [])
+        if isinstance(node, ast.Name):
+            if self.is_cache_expr(node):
+                return (True, [])
+            return (False, [node.id]) if node.id in self.vars else (False, [])
+        if isinstance(node, (ast.Attribute, ast.Subscript)):
+            if isinstance(node, ast.Attribute) and node.attr in FRESH_ATTRS:
+                return (False, [])
+            k, x = self.root(node)
+            if k == 'cache':
+                return (True, [])
+            if k == 'var':
+                return (False, [x]) if x in self.vars else (False, [])
+            # hangs on a call / literal: whatever that may alias
+            inner = node.value
+            return self.rhs(inner)
+        if isinstance(node, ast.Call):
+            f = node.func
+            has_out = [k for k in node.keywords if k.arg == 'out']
+            if isinstance(f, ast.Attribute) and is_np(f.value):
+                if f.attr in NP_VIEW or (f.attr in ('array', 'nan_to_num') and kw_false(node, 'copy')):
+                    return self.rhs(node.args[0]) if node.args else (False, [])
+                if f.attr in NP_FRESH and not has_out:
+                    return (False, [])
+                return self.unknown(node)
+            if isinstance(f, ast.Attribute):
+                if f.attr in self.accessors:
+                    return (True, [])
+                recv = self.rhs(f.value)
+                if f.attr in FRESH_METHODS and not has_out and not (f.attr == 'astype' and kw_false(node, 'copy')):
+                    return (False, [])
+                if f.attr in VIEW_METHODS or (f.attr == 'astype' and kw_false(node, 'copy')):
+                    return recv
+                return self.unknown(node)
+            if isinstance(f, ast.Name) and f.id in BUILTIN_FRESH:
+                return (False, [])
+            if isinstance(f, ast.Name) and f.id in ('list', 'tuple', 'dict', 'set'):
+                return (False, [])               # a new container (its elements are shared, but they are not followed)
+            return self.unknown(node)
+        if isinstance(node, ast.IfExp):
+            a, b = self.rhs(node.body), self.rhs(node.orelse)
+            return (a[0] or b[0], a[1] + [y for y in b[1] if y not in a[1]])
+        if isinstance(node, ast.BoolOp):
+            c, ys = False, []
+            for v in node.values:
+                r = self.rhs(v)
+                c = c or r[0]
+                ys += [y for y in r[1] if y not in ys]
+            return (c, ys)
+        return self.unknown(node)
+
+    def assign_target(self, tgt, value_rhs, value_node, line, out):
+        if isinstance(tgt, ast.Name):
+            self.var(tgt.id)
+            if self.is_cache_expr(tgt):
+                return          # a local / global cache name being (re)bound: a store
+            out.append(('assign', tgt.id, value_rhs[0], list(value_rhs[1]), line))
+        elif isinstance(tgt, (ast.Tuple, ast.List)):
+            if isinstance(value_node, (ast.Tuple, ast.List)) and len(value_node.elts) == len(tgt.elts):
+                for t, v in zip(tgt.elts, value_node.elts):
+                    self.assign_target(t, self.rhs(v), v, line, out)
+            else:
+                for t in tgt.elts:
+                    self.assign_target(t.value if isinstance(t, ast.Starred) else t, value_rhs, None, line, out)
+        elif isinstance(tgt, (ast.Subscript, ast.Attribute)):
+            if self.is_cache_expr(tgt):
+                return          # self._x_cache = ... : a store
+            k, x = self.root(tgt)
+            if k == 'cache':
+                return          # self._cache[key] = v, self._cache[key]['n'] = v : storing an entry
+            if k == 'var' and x in self.vars:
+                out.append(('inplace', x, line))
+        # anything else: not a name
+
+    def inplace_target(self, tgt, line, out):
+        k, x = self.root(tgt)
+        if k == 'cache':
+            out.append(('inplace_cache', line))
+        elif k == 'var':
+            self.var(x)
+            out.append(('inplace', x, line))
+
+    def calls_effects(self, node, line, out):
+        """in-place effects of the calls inside an expression / statement"""
+        for c in ast.walk(node):
+            if not isinstance(c, ast.Call):
+                continue
+            for k in c.keywords:
+                if k.arg == 'out':
+                    for e in (k.value.elts if isinstance(k.value, (ast.Tuple, ast.List)) else [k.value]):
+                        self.inplace_target(e, line, out)
+            f = c.func
+            fname = f.attr if isinstance(f, ast.Attribute) else (f.id if isinstance(f, ast.Name) else None)
+            if fname in self.param_mutators and not (isinstance(f, ast.Attribute) and is_np(f.value)):
+                # a function of the source that modifies (what may be) one of its own arguments in place: the arguments in those positions
+                hit = self.param_mutators[fname]
+                star = any(isinstance(e, ast.Starred) for e in c.args) or any(k.arg is None for k in c.keywords)
+                picked = [e for j, e in enumerate(c.args) if star or any(pos == j for pos, _ in hit)]
+                picked += [k.value for k in c.keywords if k.arg != 'out' and (star or any(nm == k.arg for _, nm in hit))]
+                for e in picked:
+                    k_, x_ = self.root(e.value if isinstance(e, ast.Starred) else e)
+                    if k_ == 'cache':
+                        out.append(('inplace_cache', line))
+                    elif k_ == 'var' and x_ in self.vars and x_ not in ('self', 'cls'):
+                        out.append(('inplace', x_, line))
+            if isinstance(f, ast.Attribute) and is_np(f.value) and f.attr in NP_INPLACE_FIRST and c.args:
+                self.inplace_target(c.args[0], line, out)
+            elif isinstance(f, ast.Attribute) and isinstance(f.value, ast.Attribute) and is_np(f.value.value) and f.attr == 'at' and c.args:
+                self.inplace_target(c.args[0], line, out)       # np.add.at(x, ..)
+            elif isinstance(f, ast.Attribute) and f.attr in MUTATING_METHODS and not is_np(f.value):
+                k, x = self.root(f.value)
+                if k == 'cache':
+                    if not (x == 0 and f.attr in STORE_METHODS):
+                        if not (f.attr in STORE_METHODS and self.only_container_subscripts(f.value)):
+                            out.append(('inplace_cache', line))
+                elif k == 'var' and x in self.vars:
+                    out.append(('inplace', x, line))
+
+    def only_container_subscripts(self, node):
+        """self._cache[key].update(..): filling the (dict) entry that was just stored -- part of the store protocol of StateAttributeCacheHelper"""
+        return isinstance(node, ast.Subscript) and self.is_cache_expr(node.value)
+
+    def block(self, stmts):
+        out = []
+        for st in stmts:
+            self.stmt(st, out)
+        return out
+
+    def stmt(self, st, out):
+        line = st.lineno
+        if isinstance(st, (ast.FunctionDef, ast.AsyncFunctionDef, ast.ClassDef, ast.Import, ast.ImportFrom, ast.Pass, ast.Global, ast.Nonlocal,
+                           ast.Break, ast.Continue)):
+            return
+        if isinstance(st, ast.Assign):
+            self.calls_effects(st.value, line, out)
+            r = self.rhs(st.value)
+            for t in st.targets:
+                self.assign_target(t, r, st.value, line, out)
+        elif isinstance(st, ast.AnnAssign):
+            if st.value is not None:
+                self.calls_effects(st.value, line, out)
+                self.assign_target(st.target, self.rhs(st.value), st.value, line, out)
+        elif isinstance(st, ast.AugAssign):
+            self.calls_effects(st.value, line, out)
+            self.inplace_target(st.target, line, out)
+        elif isinstance(st, ast.Delete):
+            for t in st.targets:
+                if isinstance(t, (ast.Subscript, ast.Attribute)):
+                    k, x = self.root(t)
+                    if k == 'var' and x in self.vars:
+                        out.append(('inplace', x, line))
+        elif isinstance(st, ast.Expr):
+            self.calls_effects(st.value, line, out)
+        elif isinstance(st, ast.Return):
+            if st.value is not None:
+                self.calls_effects(st.value, line, out)
+                r = self.rhs(st.value) if not isinstance(st.value, ast.Tuple) else None
+                if r is None:
+                    c, ys = False, []
+                    for e in st.value.elts:
+                        q = self.rhs(e)
+                        c = c or q[0]
+                        ys += [y for y in q[1] if y not in ys]
+                    r = (c, ys)
+                out.append(('return', r[0], list(r[1]), line))
+            else:
+                out.append(('return', False, [], line))
+        elif isinstance(st, ast.If):
+            self.calls_effects(st.test, line, out)
+            out.append(('if', self.block(st.body), self.block(st.orelse), line))
+        elif isinstance(st, (ast.For, ast.AsyncFor)):
+            self.calls_effects(st.iter, line, out)
+            body = []
+            r = self.rhs(st.iter)
+            if isinstance(st.iter, ast.Call) and isinstance(st.iter.func, ast.Name) and st.iter.func.id in ('zip', 'enumerate', 'reversed', 'sorted', 'list', 'iter'):
+                r = self.unknown(st.iter)
+            self.assign_target(st.target, r, None, line, body)
+            body += self.block(st.body)
+            out.append(('loop', body, line))
+            out.extend(self.block(st.orelse))
+        elif isinstance(st, ast.While):
+            self.calls_effects(st.test, line, out)
+            out.append(('loop', self.block(st.body), line))
+            out.extend(self.block(st.orelse))
+        elif isinstance(st, (ast.With, ast.AsyncWith)):
+            for it in st.items:
+                self.calls_effects(it.context_expr, line, out)
+                if it.optional_vars is not None:
+                    self.assign_target(it.optional_vars, self.unknown(it.context_expr), None, line, out)
+            out.extend(self.block(st.body))
+        elif isinstance(st, ast.Try):
+            out.append(('if', self.block(st.body) + self.block(st.orelse), [], line))
+            for h in st.handlers:
+                out.append(('if', self.block(h.body), [], line))
+            out.extend(self.block(st.finalbody))
+        elif isinstance(st, (ast.Raise, ast.Assert)):
+            for sub in ast.iter_child_nodes(st):
+                self.calls_effects(sub, line, out)
+        else:
+            raise Unsupported('post-processing scan: statement %s at line %d' % (type(st).__name__, line))
+
+
+def py_an(stmts, a, found):
+    """the abstract interpretation of C05.Model.an, mirrored (used for the accessor fixpoint and for the comments only): returns the set of
+    names that may alias a cache entry afterwards; appends (kind, line) to found for in-place sites and ('ret', line) for aliasing returns"""
+    a = set(a)
+    for st in stmts:
+        k = st[0]
+        if k == 'assign':
+            _, x, c, ys, line = st
+            if c or any(y in a for y in ys):
+                a.add(x)
+            else:
+                a.discard(x)
+        elif k == 'inplace':
+            if st[1] in a:
+                found.append(('inplace', st[2], st[1]))
+        elif k == 'inplace_cache':
+            found.append(('inplace', st[1], '<cache>'))
+        elif k == 'return':
+            if st[1] or any(y in a for y in st[2]):
+                found.append(('ret', st[3], None))
+        elif k == 'if':
+            a = py_an(st[1], a, found) | py_an(st[2], a, found)
+        elif k == 'loop':
+            inv = set(a)
+            for _ in range(4):
+                inv |= py_an(st[1], inv, [])
+            py_an(st[1], inv, found)
+            a = inv
+    return a
+
+
+def all_functions(modules):
+    """(rel, qualified name, FunctionDef, is_property, is_memoised) for every function, nested ones included"""
+    out = []
+
+    def walk(node, prefix, rel):
+        for ch in ast.iter_child_nodes(node):
+            if isinstance(ch, (ast.FunctionDef, ast.AsyncFunctionDef)):
+                q = prefix + [ch.name]
+                d = deco_names(ch)
+                out.append((rel, '.'.join(q), ch, 'property' in d, 'memoize' in d))
+                walk(ch, q, rel)
+            elif isinstance(ch, ast.ClassDef):
+                walk(ch, prefix + [ch.name], rel)
+            else:
+                walk(ch, prefix, rel)
+    for rel in sorted(modules):
+        walk(modules[rel], [], rel)
+    return out
+
+
+def own_body(fn):
+    """the statements of fn without the bodies of nested functions (those are functions of their own)"""
+    return fn.body
+
+
+def post_table(modules):
+    fns = all_functions(modules)
+
+    # inter-procedural step (one level, by name): the functions that modify one of their own PARAMETERS in place (`values -= ..` on an
+    # argument, `np.asarray(arg)` included).  A call of such a function with an argument that may alias a cache entry counts as an in-place
+    # modification of that argument.  Generic container protocols are not followed by name.
+    param_mutators = {}
+    for rel, q, fn, is_prop, is_memo in fns:
+        params = [a_.arg for a_ in fn.args.args + fn.args.kwonlyargs + fn.args.posonlyargs if a_.arg not in ('self', 'cls')]
+        if not params or fn.name.startswith('__') or fn.name in MUTATING_METHODS or fn.name in FRESH_METHODS or fn.name in VIEW_METHODS:
+            continue
+        b = IRBuilder(fn, set(), set(), set())
+        for a_ in ['self', 'cls'] + params:
+            b.var(a_)
+        for n in ast.walk(fn):
+            if isinstance(n, ast.Name) and isinstance(n.ctx, (ast.Store, ast.Del)):
+                b.var(n.id)
+        try:
+            ir0 = b.block(own_body(fn))
+        except Unsupported:
+            continue
+        found0 = []
+        py_an(ir0, set(params), found0)
+        for f in found0:
+            # py_an reports the name that is modified; it is a parameter, or a local that aliases one: attribute every hit to the parameters
+            # it may alias is not tracked, so a hit on a local counts for every parameter (conservative)
+            if f[0] == 'inplace' and f[2] != '<cache>':
+                which = [f[2]] if f[2] in params else params
+                for nm in which:
+                    param_mutators.setdefault(fn.name, set()).add((params.index(nm), nm))
+
+    def one_pass(accessors, props):
+        rows = []
+        for rel, q, fn, is_prop, is_memo in fns:
+            cache_names = {'memo'} if rel == 'glue/core/decorators.py' else set()
+            b = IRBuilder(fn, cache_names, accessors, props, param_mutators)
+            for a_ in fn.args.args + fn.args.kwonlyargs + fn.args.posonlyargs:
+                b.var(a_.arg)
+            # every local name is known before right-hand sides are classified
+            for n in ast.walk(fn):
+                if isinstance(n, ast.Name) and isinstance(n.ctx, (ast.Store, ast.Del)):
+                    b.var(n.id)
+            ir = b.block(own_body(fn))
+
+            def has_source(ss):
+                return any((s[0] == 'assign' and s[2]) or s[0] == 'inplace_cache' or (s[0] == 'return' and s[1]) or
+                           (s[0] == 'if' and (has_source(s[1]) or has_source(s[2]))) or (s[0] == 'loop' and has_source(s[1])) for s in ss)
+            if not has_source(ir):
+                continue
+            found = []
+            py_an(ir, set(), found)
+            rows.append({'rel': rel, 'q': q, 'line': fn.lineno, 'ir': ir, 'vars': dict(b.vars), 'inplace': [f for f in found if f[0] == 'inplace'],
+                         'ret_alias': any(f[0] == 'ret' for f in found), 'name': fn.name, 'is_prop': is_prop})
+        return rows
+    # level 1: the functions that hand out a cache expression itself (`return self._profile_cache`, `return memo[key]`, ...); their names,
+    # together with the memoised function names, are the cache-returning accessors whose RESULTS count as cache entries in the final pass.
+    # (One level only: following every function that returns the result of such an accessor by NAME reaches `copy`, `roi`, `transpose`, ...
+    # of unrelated classes.  The property name `mask` -- FloodFillSubsetState.mask -- is also a plain attribute of MaskSubsetState and of
+    # numpy masked arrays and is not followed.)
+    level1 = one_pass(set(), set())
+    accessors = set(SEED_ACCESSORS) | set(f[2].name for f in fns if f[4])
+    props = set()
+    for r in level1:
+        if r['ret_alias'] and r['name'] not in ('wrapper', 'result', '__init__', 'mask'):
+            (props if r['is_prop'] else accessors).add(r['name'])
+    rows = one_pass(accessors, props)
+    # a property name such as `mask` is also a plain attribute of unrelated classes: only follow property names that are unambiguous
+    return rows, sorted(accessors), sorted(props), sorted(param_mutators)
+
+
+def ir_coq(ss, vars_):
+    out = []
+    for s in ss:
+        k = s[0]
+        if k == 'assign':
+            out.append('SAssign %d %s [%s]' % (vars_[s[1]], 'true' if s[2] else 'false', '; '.join(str(vars_[y]) for y in s[3])))
+        elif k == 'inplace':
+            out.append('SInplace %d' % vars_[s[1]])
+        elif k == 'inplace_cache':
+            out.append('SInplaceCache')
+        elif k == 'return':
+            out.append('SReturn %s [%s]' % ('true' if s[1] else 'false', '; '.join(str(vars_[y]) for y in s[2])))
+        elif k == 'if':
+            out.append('SIf [%s] [%s]' % (ir_coq(s[1], vars_), ir_coq(s[2], vars_)))
+        elif k == 'loop':
+            out.append('SLoop [%s]' % ir_coq(s[1], vars_))
+    return '; '.join(out)
+
+
 def generate(out_path):
     fam, modules = scan()
     names = ['SubsetState'] + sorted(n for n in fam if n != 'SubsetState')
@@ -519,6 +979,37 @@ def generate(out_path):
     t.append('Definition find_policy (p : nat) : option (nat * nat * bool) := find (fun r => Nat.eqb (fst (fst r)) p) path_policy.')
     t.append('Definition scope_of (p : nat) : option nat := match find_policy p with Some r => Some (snd (fst r)) | None => None end.')
     t.append('Definition before_of (p : nat) : bool := match find_policy p with Some r => snd r | None => true end.')
+    prows, accessors, props, pmut = post_table(modules)
+    t.append('')
+    t.append('(* ---- post-processing of cached values (see the header of the scan in tools/gen/gen_memo.py): every function that reads a cache')
+    t.append('   entry, as a program over its local names.  SAssign x c ys: x is bound to something that may share memory with a cache entry (c) or')
+    t.append('   with what the names ys hold; SInplace x: x is modified in place; SInplaceCache: a cache expression is modified in place. *)')
+    t.append('Inductive pstmt :=')
+    t.append('| SAssign (x : nat) (c : bool) (ys : list nat)')
+    t.append('| SInplace (x : nat)')
+    t.append('| SInplaceCache')
+    t.append('| SReturn (c : bool) (ys : list nat)')
+    t.append('| SIf (a b : list pstmt)')
+    t.append('| SLoop (a : list pstmt).')
+    t.append('(* cache-returning accessors followed by the scan: %s ; properties: %s *)' % (', '.join(accessors), ', '.join(props)))
+    t.append('(* functions that modify one of their own parameters in place (a call with an argument that may alias a cache entry is an in-place')
+    t.append('   modification of it): %d functions *)' % len(pmut))
+    t.append('Definition post_fns : list (nat * list pstmt) := [')
+    for k, r in enumerate(prows):
+        t.append('  (%d, [%s])%s  (* %s:%s:%d%s%s *)' % (
+            k, ir_coq(r['ir'], r['vars']), ';' if k + 1 < len(prows) else '', r['rel'], r['q'], r['line'],
+            '  returns-cache-alias' if r['ret_alias'] else '',
+            ''.join('  IN-PLACE line %d on %s' % (f[1], f[2]) for f in r['inplace'])))
+    t.append('].')
+    hist = [k for k, r in enumerate(prows) if r['rel'] == 'glue/viewers/histogram/state.py' and r['q'] == 'HistogramLayerState.histogram']
+    prof = [k for k, r in enumerate(prows) if r['rel'] == 'glue/viewers/profile/state.py' and r['q'] == 'ProfileLayerState.profile']
+    memo = [k for k, r in enumerate(prows) if r['rel'] == 'glue/core/decorators.py' and r['q'] == 'memoize.wrapper']
+    frb = [k for k, r in enumerate(prows) if r['rel'] == 'glue/core/fixed_resolution_buffer.py' and r['q'] == 'compute_fixed_resolution_buffer']
+    t.append('(* rows the theorems name: HistogramLayerState.histogram, ProfileLayerState.profile, memoize.wrapper, compute_fixed_resolution_buffer (999 = not found) *)')
+    t.append('Definition post_fn_frb : nat := %d.' % (frb[0] if len(frb) == 1 else 999))
+    t.append('Definition post_fn_histogram : nat := %d.' % (hist[0] if len(hist) == 1 else 999))
+    t.append('Definition post_fn_profile : nat := %d.' % (prof[0] if len(prof) == 1 else 999))
+    t.append('Definition post_fn_memoize : nat := %d.' % (memo[0] if len(memo) == 1 else 999))
     text = '\n'.join(t) + '\n'
     if not os.path.exists(out_path) or open(out_path).read() != text:
         tmp = out_path + '.tmp'
